@@ -16,19 +16,19 @@ func (v *ScriptView) writeCreateSQLForATable(
 ) {
 	v.stringBuilder.WriteString(fmt.Sprintf("CREATE TABLE %s(\n", tableName))
 	var foreignKeyConstraints, primaryKeys, attrNames []string
-	var lineNumbers []int32
-	lineNumberMap := map[int32]string{}
+	// columns in source order; a table re-opened in another file can have two columns on the
+	// same line number, so the name breaks ties
 	for columnName := range table.AttrDefs {
-		column := table.AttrDefs[columnName]
-		lineNumber := column.GetSourceContext().GetStart().GetLine() // nolint:staticcheck
-		lineNumberMap[lineNumber] = columnName
-		lineNumbers = append(lineNumbers, lineNumber)
+		attrNames = append(attrNames, columnName)
 	}
-	sort.Slice(lineNumbers, func(i, j int) bool { return lineNumbers[i] < lineNumbers[j] })
-	for _, lineNo := range lineNumbers {
-		attrName := lineNumberMap[lineNo]
-		attrNames = append(attrNames, attrName)
-	}
+	sort.Slice(attrNames, func(i, j int) bool {
+		li := table.AttrDefs[attrNames[i]].GetSourceContext().GetStart().GetLine() // nolint:staticcheck
+		lj := table.AttrDefs[attrNames[j]].GetSourceContext().GetStart().GetLine() // nolint:staticcheck
+		if li != lj {
+			return li < lj
+		}
+		return attrNames[i] < attrNames[j]
+	})
 	var tableData string
 	for _, attrName := range attrNames {
 		attrType := table.AttrDefs[attrName]
